@@ -43,7 +43,10 @@ def _case(draw, tier, adaptive=False):
     return {"kind": "adaptive" if adaptive else "ladder", "combo": combo, "spec": spec, "t0": t0, "T": T,
             "entropy": draw(st.integers(0, 2 ** 31 - 2)), "y0seed": draw(st.integers(0, 2 ** 31 - 1)),
             "kmax": 8 if tier == "quick" else 10, "paths": 2048 if tier == "quick" else 4096,
-            "clip": draw(st.booleans())}
+            "clip": draw(st.booleans()),
+            # intermediate output times that are not step ends (the error is still measured at ts[-1] only: interpolated
+            # values inside a step are O(sqrt(dt)) off by nature, but asking for them must not disturb the trajectory)
+            "outs": draw(st.sampled_from([[], [], [0.37], [1 / 3, 0.7]]))}
 
 
 @st.composite
@@ -68,7 +71,7 @@ FAMILY_MATRIX = {
     "diagonal": [("reducible", "exp"), ("reducible", "arctan"), ("reducible", "sinh"), ("reducible", "gd"),
                  ("scaled_additive", None)],
     "scalar": [("reducible", "exp"), ("reducible", "gd"), ("linear_commuting", None)],
-    "additive": [("scaled_additive", None)],
+    "additive": [("scaled_additive", None), ("additive_nl", None)],
     "general": [("linear_commuting", None), ("scaled_additive", None), ("triangular_nc", None)],
 }
 
@@ -105,6 +108,9 @@ def enumerate_cases(tier):
                 spec.update({"d": rnd.randint(2, 3), "m": 1 if nt == "scalar" else rnd.randint(1, 3),
                              "alpha": [coef(-0.6, 0.3), coef(-0.8, 0.8)],
                              "beta": [[coef(-0.5, 0.5), signed(0.3, 0.9)] for _ in range(3)]})
+            elif fam == "additive_nl":
+                spec.update({"d": rnd.randint(1, 2), "m": rnd.randint(1, 3), "k": [signed(0.8, 2.0) for _ in range(2)],
+                             "om": rnd.choice([0.0, 1.0, 3.0])})
             elif fam == "scaled_additive":
                 d = rnd.randint(1, 3)
                 spec.update({"d": d, "m": d if nt == "diagonal" else rnd.randint(1, 3),
@@ -115,7 +121,8 @@ def enumerate_cases(tier):
             yield {"kind": "ladder", "combo": combo, "spec": spec, "t0": rnd.choice([0.0, 0.5, -1.0]),
                    "T": rnd.choice([0.5, 1.0, 0.75]), "entropy": rnd.randrange(2 ** 31 - 2),
                    "y0seed": rnd.randrange(2 ** 31), "kmax": 8 if tier == "quick" else 10,
-                   "paths": 2048 if tier == "quick" else 4096, "clip": (idx + seed) % 2 == 0}
+                   "paths": 2048 if tier == "quick" else 4096, "clip": (idx + seed) % 2 == 0,
+                   "outs": [[], [0.37], [1 / 3, 0.7]][(idx + seed) % 3]}
             if (fam, phi) == ADAPTIVE_FAMILY[nt]:
                 # the adaptive clause on every accepted cell as well (a curved family where there is one): random draws
                 # alone left e.g. (reversible_heun, adaptive, non-linear coefficients) unvisited in most runs
@@ -179,23 +186,31 @@ def run_case(case):
         return _run_shared_options(case)
     combo, spec = case["combo"], case["spec"]
     nc = spec["family"] == "triangular_nc"
+    anl = spec["family"] == "additive_nl"
     kmax = case.get("kmax", 8)
-    B = case.get("paths", 2048) // (2 if nc else 1)
+    B = case.get("paths", 2048) // (2 if (nc or anl) else 1)
     sde = sdes_closed.compile_spec(spec, B)
     y0 = sde.y0(B, case["y0seed"])
     t0, t1 = case["t0"], case["t0"] + case["T"]
-    ts = torch.tensor([t0, t1], dtype=torch.float64)
+    ts = torch.tensor([t0] + [t0 + fr * case["T"] for fr in case.get("outs", [])] + [t1], dtype=torch.float64)
+    # the hand-written order-1.5 reference of additive_nl needs the space-time integral U of the same path
+    bm_levy = "space-time" if (anl and combo["levy"] == "none") else combo["levy"]
     bm = torchsde.BrownianInterval(t0=t0, t1=t1, size=(B, spec["m"]), dtype=torch.float64, entropy=case["entropy"],
-                                   levy_area_approximation=combo["levy"], cache_size=None)
+                                   levy_area_approximation=bm_levy, cache_size=None)
     sig = {"sde_type": combo["sde_type"], "noise_type": combo["noise_type"], "method": combo["method"],
            "grad_free": bool(combo["options"]), "family": spec["family"], "kind": case["kind"]}
     label = f"{combo['sde_type']}/{combo['noise_type']}/{combo['method']}" + ("+grad_free" if combo["options"] else "")
     labels = [label, f"family={spec['family']}" + (f":{spec['phi']}" if spec["family"] == "reducible" else ""),
-              f"levy={combo['levy']}"] + (["clipped_last_step"] if case.get("clip") and case["kind"] == "ladder" else [])
+              f"levy={combo['levy']}"] + (["clipped_last_step"] if case.get("clip") and case["kind"] == "ladder" else []) + \
+        (["interior_outputs_off_grid"] if case.get("outs") else [])
     opts = dict(combo["options"]) or None
     ks = list(range(3, (kmax if nc else kmax + 1)))
+    if anl:
+        ks = [2, 3, 4, 5, 6]        # reference: order-1.5 Taylor at T*2^-11 (error ~1e-5)
     with torch.no_grad():
-        if nc:
+        if anl:
+            exact = sde.exact_riemann(y0, t0, t1, bm, case["T"] * 2.0 ** -11)
+        elif nc:
             exact = sde.exact_riemann(y0, t0, t1, bm, case["T"] * 2.0 ** -(ks[-1] + 4))
         else:
             exact = sde.exact(y0, t0, t1, bm(t0, t1))
